@@ -1,0 +1,15 @@
+//go:build verif
+// +build verif
+
+package bundler
+
+// Verification hooks (add-only, only compiled with -tags verif): thin exported wrappers around unexported
+// routines so that the correspondence harness can run the real code.
+
+import "github.com/evanw/esbuild/internal/config"
+
+// VerifApplyOptionDefaults runs applyOptionDefaults (default loaders / templates and the automatic fix of
+// invalid unsupported-feature overrides) on the given options.
+func VerifApplyOptionDefaults(options *config.Options) {
+	applyOptionDefaults(options)
+}
